@@ -93,7 +93,8 @@ def work(ident, prop, tier, tree):
                                 "violations": [{"kwargs": bd, "detail": f["detail"], "claim": f["claim"]} for f in fails]}}
         res = K.verify(k, repo)
         bounded = None
-        if res.error and res.error.startswith("unsupported") and getattr(k, "bounded_driver", None):
+        if res.error and (res.error.startswith("unsupported") or res.error.startswith("crash")) and getattr(k, "bounded_driver", None):
+            # the function (as it is now) is outside the verifier's reach - or crashed it: the native driver may still find a failing input
             bd = k.bounded_driver
             rp = run_replay(bd, tree)
             bounded = {"instances": 1, "undecided": 0, "bound": f"native driver {bd['driver']} (seeded random search)",
